@@ -167,6 +167,14 @@ def SEnv.declare (Γ : SEnv) (e : Entry) : Except Rej SEnv :=
 
 def Entry.movable (e : Entry) : Bool := e.acc == .own || e.kind == .coll
 
+def Mode.recv : Mode → Recv
+  | .shr => .ref
+  | .mut => .refMut
+
+def Mode.refAcc : Mode → Acc
+  | .shr => .shrRef
+  | .mut => .mutRef
+
 def Recv.mode : Recv → Mode
   | .ref => .shr
   | _ => .mut
@@ -328,11 +336,11 @@ def checkColl (t : Table) (Γ : SEnv) (v h : Var) (m : Mode) : Except Rej SEnv :
     match collParamIsSelf t e.kind m with
     | none => .error .notApplicable
     | some paramIsSelf =>
-      match Γ.access e (match m with | .shr => .ref | .mut => .refMut) with
+      match Γ.access e m.recv with
       | .error r => .error r
       | .ok Γ1 =>
-        let s : Region := .borrow e.var m :: e.self
-        Γ1.declare ⟨v, .coll, (match m with | .shr => .shrRef | .mut => .mutRef), s, if paramIsSelf then s else e.param, true, Γ.depth⟩
+        Γ1.declare ⟨v, .coll, m.refAcc, .borrow e.var m :: e.self,
+                    if paramIsSelf then .borrow e.var m :: e.self else e.param, true, Γ.depth⟩
 
 def checkEnter (t : Table) (Γ : SEnv) (s g h : Var) (op : Op) (owner name : String) : Except Rej SEnv :=
   match t.lookup owner name with
@@ -352,7 +360,7 @@ def checkEnter (t : Table) (Γ : SEnv) (s g h : Var) (op : Op) (owner name : Str
           -- the implicit guard (scoped) / reborrow (aligned) the call holds on its receiver
           let gself : Region := .borrow e.var sig.recv.mode :: e.self
           let ge : Entry := if opens then ⟨g, .guard, .own, gself, gself, true, Γ.depth⟩
-                            else ⟨g, .scope, .mutRef, gself, e.param, true, Γ.depth⟩
+                            else ⟨g, .scope, .mutRef, gself, if realParam then e.param else gself, true, Γ.depth⟩
           match Γ1.declare ge with
           | .error r => .error r
           | .ok Γ2 =>
